@@ -684,6 +684,13 @@ func (l *TCPListener) Close() error {
 				poke(h.rwake)
 				poke(h.wwake)
 			}
+			// never accepted: the kernel drops it, the listening process never held it
+			c.mu.Lock()
+			if !c.closed {
+				c.closed = true
+				close(c.closedCh)
+			}
+			c.mu.Unlock()
 			continue
 		default:
 		}
